@@ -137,7 +137,7 @@ func (run *c41Run) lifeOp(op, by string) {
 		_, delivered := run.pc.Snapshot()
 		for _, log := range logs {
 			for _, m := range log {
-				if delivered[m.ID] == 0 {
+				if run.cfg.PostCommit && delivered[m.ID] == 0 {
 					missingPC = append(missingPC, m)
 				}
 			}
